@@ -102,6 +102,7 @@ FINDING_TEXT = {
     "app-only-field-in-signature-mode": "a field the AVM offers in Application mode only (global Round/LatestTimestamp/CurrentApplicationID/CreatorAddress/..., txn Logs/NumLogs/Created*ID/LastLog) compiles in Signature mode: PyTeal has no mode column for fields",
     "vrf-chainlink-not-an-avm-field": "VrfVerify.chainlink emits vrf_verify VrfChainlink, which is not a field of the AVM (only VrfAlgorand)",
     "itxn-field-not-settable": "InnerTxnBuilder.SetField accepts any TxnField of the program version: itxn_field is emitted for fields the AVM never lets an inner transaction set (FirstValid, TxID, NumAppArgs, ...) or only from a later version (Note, RekeyTo, application fields: v6), and the field's own minimum version is not checked either (itxn_field StateProofPK at v5)",
+    "enumint-name-unchecked": "the public EnumInt constructor prints any name verbatim after `int`: a name that is not one of the assembler's named constants (here: a valid name with a stray line break) gives an `int` statement the assembler cannot read",
     "loop-below-v4": "While/For compile at versions 2 and 3 although backward branches exist only from version 4",
 }
 
@@ -234,6 +235,14 @@ def fam_corpus(ses, pt, rng, thorough, shard=0, nshards=1):
     ses.ck.coverage["corpus_small_shapes"] = len(smalls)
 
 
+def enumint_known(res, text, ver):
+    """class predicate of enumint-name-unchecked: the program is an EnumInt probe (the name handed to the public EnumInt
+    constructor is not one of the assembler's named constants) and the checker cannot read the `int NAME` statement."""
+    if res[0] == "bad" and res[1] == "parse" and str(res[3]).split(" ")[0] in ("int", "pushint", "intcblock"):
+        return ("enumint-name-unchecked", None, ver)
+    return None
+
+
 def fam_sweep(ses, pt, rng, thorough, shard=0, nshards=1):
     """catalogue + raw ops x versions x modes: accepted => legal."""
     cat = G.catalogue(pt)
@@ -250,7 +259,8 @@ def fam_sweep(ses, pt, rng, thorough, shard=0, nshards=1):
                 ac = v >= 3 and (idx + v) % 3 == 0
                 t = ses.compile_and_check(thunk, v, app, {"family": "catalogue", "name": name, "key": idx, "scratch_slots": ss,
                                                           "frame_pointers": fp, "assemble_constants": ac},
-                                          optimize=optimize_of(pt, ss, fp), assemble_constants=ac)
+                                          optimize=optimize_of(pt, ss, fp), assemble_constants=ac,
+                                          extra_known=enumint_known if name.startswith("EnumInt+") else None)
                 if t is not None:
                     acc.setdefault(name, []).append((v, app))
     never = [n for k, (n, _, tags) in enumerate(cat) if k % nshards == shard and n not in acc and "v11" not in tags]
